@@ -365,7 +365,7 @@ def match_defs(sc, req, a, b):
     if afi.variant == 'Some':
         rate = sc.ti.get(afi.fields[0], 'rate')
         rn, rd = f_dec_n(rate), f_dec_d(rate)
-        v['askfee'] = (2 * rn * v['g'] + rd) / (2 * rd)
+        v['askfee'] = (2 * rn * (xn * s) + rd * xd) / (2 * rd * xd)      # half-up of rate x price x size
         v['askfee_acct'] = uv(sc.ti.get(afi.fields[0], 'account'))
     else:
         v['askfee'], v['askfee_acct'] = z3.IntVal(0), None
@@ -384,12 +384,22 @@ def fee_witness(path, b, v):
         return z3.IntVal(0), z3.IntVal(0), z3.BoolVal(True), []
     rs = [t[2] for t in path.world.ties]
     Q = b['quote']
-    if len(rs) >= 2:
+
+    def is_nearest(t, x):
+        """tie entry t is the rounding of fee*x/Q: linear match on the recorded factors (a/q)*f, else the defining inequality"""
+        fac = t[3] if len(t) > 3 else None
+        direct = tol_nearest(b['fee'], x, Q, t[2])
+        if fac is None:
+            return direct
+        a_c, f_c, q_c = fac
+        return z3.Or(z3.And(f_c == b['fee'], q_c == Q, a_c == x), direct)
+    ts = path.world.ties
+    if len(ts) >= 2:
         r1, r2 = rs[0], rs[1]
-        return r1, r2, z3.And(tol_nearest(b['fee'], b['rem_q'] - v['g'], Q, r1), z3.Implies(v['improved'], tol_nearest(b['fee'], b['rem_q'] - v['g2'], Q, r2))), []
-    if len(rs) == 1:
+        return r1, r2, z3.And(is_nearest(ts[0], b['rem_q'] - v['g']), z3.Implies(v['improved'], is_nearest(ts[1], b['rem_q'] - v['g2']))), []
+    if len(ts) == 1:
         r1 = rs[0]
-        return r1, r1, z3.And(tol_nearest(b['fee'], b['rem_q'] - v['g'], Q, r1), z3.Not(v['improved'])), []
+        return r1, r1, z3.And(is_nearest(ts[0], b['rem_q'] - v['g']), z3.Not(v['improved'])), []
     # the path never formed the quotient: fall back to the exact half-up values (closed form needs a symbolic divisor: definitional variables)
     r1, r2 = fresh_int('r1'), fresh_int('r2')
     return r1, r2, z3.BoolVal(True), [rhu_def(v['n1'], Q, r1), rhu_def(v['n2'], Q, r2)]
@@ -1245,3 +1255,23 @@ def c06_full(sc, req, path):
 
 
 PROPS.update({'C01': c01_full, 'C06': c06_full})
+
+
+# ---------------------------------------------------------------- C01 along histories from the empty book (no Inv assumed)
+def c01_history(sc, trail):
+    """holdings after the whole accepted history == what the orders on the final book are owed, per denomination"""
+    ti = sc.ti
+    D = fresh_str('D')
+    net = z3.IntVal(0)
+    for req, funds, p in trail:
+        trs = transfers(p)
+        fin = z3.IntVal(0)
+        for f in funds:
+            fin = fin + z3.If(f.fields[0] == D, uv(f.fields[1]), 0)
+        for t in trs:
+            if t.wellformed and t.kind == 'marker':
+                fin = fin + z3.If(z3.And(t.to == CONTRACT, t.denom == D), t.amount, 0)
+        net = net + fin - funds_out(trs, D)
+    final = trail[-1][2].world
+    yield refute('holdings_equal_owed_after_history', [net != owed(ti, final, D)], steps=len(trail))
+    yield refute('holdings_never_negative', [net < 0], steps=len(trail))
